@@ -321,6 +321,8 @@ def task_random(ctx, col, shard, n):
 
 def tasks(ctx):
     global EXHAUSTIVE
+    from checks.c06 import interpreter_selftest
+    interpreter_selftest(ctx)
     stride = ctx.pick(11, 1)
     EXHAUSTIVE = None if stride != 1 else "9 languages x 13 value types x 7 index types x 4 atoms x 6 length profiles x 2 byte orders, every k"
     t = []
